@@ -37,6 +37,9 @@
 //   Q <r|x> <override> <overhead> <cindex>        B is asked for a snapshot the way NodeHost.RequestSnapshot asks: SnapshotOption.Validate,
 //                                                 node.requestSnapshot, node.handleSnapshot (a second request at the same applied index is
 //                                                 rejected), node.save, result delivered to the request
+//   N <r|x> <override> <overhead> <cindex>        the pending task goes to B and the snapshot worker starts B's save while the apply worker is
+//                                                 inside the user Update of its last entry (concurrent kind; on-disk kind for exports)
+//   O                                             B is handed a Recover task for the snapshot record it already holds and has applied
 //   T <j> <r|x> <override> <overhead> <cindex>    the pending task goes to B and B saves FROM INSIDE it: right after the
 //                                                 first entry at or after the j-th of the task has been reported (per-entry
 //                                                 apply path, concurrent / on-disk kinds; otherwise after the task)
@@ -63,6 +66,7 @@ import (
 	"path/filepath"
 	"strconv"
 	"strings"
+	"time"
 
 	dragonboat "github.com/lni/dragonboat/v4"
 	pb "github.com/lni/dragonboat/v4/raftpb"
@@ -277,6 +281,101 @@ func (w *world) userSnapshot(r *replica, f []string) {
 		w.viol = append(w.viol, fmt.Sprintf("SNAPSHOT-RESULT replica %s: request %v ended %s with index %d", r.name, f, outcome, idx))
 	}
 	w.afterSave(r, "Q "+outcome, idx, nrm)
+}
+
+// saveRacingUpdate: the snapshot worker starts B's save while the apply worker is
+// INSIDE the user Update of the last entry of the pending task (it holds the state
+// machine lock there): prepare() has to wait for that lock, so the snapshot describes
+// the replica after the task. The harness only races when the outcome does not depend
+// on timing (guards of doSave / checkSnapshotStatus pass for the applied index before
+// and after the task); otherwise the save follows the task.
+func (w *world) saveRacingUpdate(r *replica, f []string) {
+	req := w.request(r, f[1:])
+	pend := w.pending()
+	w.flushed = len(w.log)
+	if len(pend) > 0 {
+		w.deliverTo(w.A, pend)
+	}
+	nrm := len(r.ldb.removals)
+	var idx uint64
+	started := false
+	done := make(chan string, 1)
+	if len(pend) > 0 && !r.lag {
+		v := r.view()
+		racing := (w.p.kind == "conc" || (w.p.kind == "disk" && req.Type == hk.Exported)) &&
+			pend[len(pend)-1].Index > v.Index &&
+			v.SnapshotIndex < v.LastIndex && r.node.SnapshotStateIndex() < v.LastIndex
+		if racing {
+			rc := r.usm.race()
+			rc.prepared = make(chan struct{}, 1)
+			rc.at = pend[len(pend)-1].Index
+			rc.fn = func() {
+				started = true
+				w.feat["save-racing-update"] = true
+				go func() {
+					done <- vh.Catch(func() {
+						var err error
+						if idx, err = r.node.DoSave(req); err != nil {
+							panic(err)
+						}
+					})
+				}()
+				// give the saver the chance to run into (or, without the lock, past) prepare()
+				select {
+				case <-rc.prepared:
+				case <-time.After(4 * time.Millisecond):
+				}
+			}
+		}
+		w.deliverTo(r, pend)
+		rc := r.usm.race()
+		rc.at, rc.fn = 0, nil
+	}
+	if started {
+		if msg := <-done; msg != "" {
+			panic(msg)
+		}
+	} else {
+		var err error
+		if idx, err = r.node.DoSave(req); err != nil {
+			panic(err)
+		}
+	}
+	if rc := r.usm.race(); rc.prepDuring {
+		rc.prepDuring = false
+		w.viol = append(w.viol, fmt.Sprintf("PREPARE-DURING-UPDATE replica %s: the snapshot (recorded index %d) was prepared while the Update of entry %d was in progress: it is labelled with one index and holds the data of another", r.name, idx, pend[len(pend)-1].Index))
+	}
+	r.usm.race().prepared = nil
+	w.afterSave(r, "N", idx, nrm)
+}
+
+// staleRecover: B is handed a Recover task for the snapshot record it holds although
+// it has applied that index (and possibly more) already: a duplicate / delayed
+// InstallSnapshot. The state machine must refuse it (ErrSnapshotOutOfDate).
+func (w *world) staleRecover() {
+	w.flush()
+	b := w.B
+	ss := b.node.LogReaderSnapshot()
+	if pb.IsEmptySnapshot(ss) {
+		w.emit("O no-record")
+		return
+	}
+	before := b.obs()
+	nrm := len(b.ldb.removals)
+	w.cur = "B.recover"
+	got, err := b.node.Recover(hk.Task{Recover: true, Index: ss.Index})
+	if err != nil {
+		panic(err)
+	}
+	b.printed = b.view().Index
+	b.removeLog()
+	w.cur = ""
+	w.emit(fmt.Sprintf("O from=%d %s | %s", got, b.obs(), b.aux()))
+	w.newRemovals(b, nrm)
+	w.feat["stale-recover-task"] = true
+	if after := b.obs(); after != before {
+		w.viol = append(w.viol, fmt.Sprintf("STALE-SNAPSHOT-APPLIED replica B held [%s], was handed a recover task for its snapshot %d and now holds [%s]", before, ss.Index, after))
+	}
 }
 
 // saveInTask: the snapshot worker runs B's save between two entries of the task
@@ -983,7 +1082,7 @@ func (w *world) op(o string) {
 	if len(f) == 0 {
 		return
 	}
-	need := map[string]int{"a": 5, "c": 6, "t": 1, "b": 1, "y": 1, "L": 1, "S": 6, "R": 4, "I": 3, "T": 6, "M": 3, "W": 4, "P": 1, "K": 3, "V": 3, "D": 3, "Z": 3, "Q": 5}
+	need := map[string]int{"a": 5, "c": 6, "t": 1, "b": 1, "y": 1, "L": 1, "S": 6, "R": 4, "I": 3, "T": 6, "M": 3, "W": 4, "P": 1, "K": 3, "V": 3, "D": 3, "Z": 3, "Q": 5, "N": 5, "O": 1}
 	if n, ok := need[f[0]]; !ok || len(f) != n {
 		w.emit("? " + f[0])
 		return
@@ -1044,6 +1143,10 @@ func (w *world) op(o string) {
 		w.streamTo(w.B, u(f[1]), u(f[2]))
 	case "Q":
 		w.userSnapshot(w.B, f)
+	case "N":
+		w.saveRacingUpdate(w.B, f)
+	case "O":
+		w.staleRecover()
 	case "D":
 		if w.p.kind != "disk" {
 			w.emit("D n/a")
@@ -1146,7 +1249,7 @@ func runCase(line string, st *vh.Stats) []string {
 	}
 	keys := []string{}
 	for _, k := range []string{"snapshot", "restart-from-snapshot", "install", "overlap", "compaction", "update-during-save", "lag", "ondisk-init-skip",
-		"encoded-entries", "save-inside-task", "install-of-older-record", "send-decision", "received-snapshot-on-B", "overlapping-stream-requests", "power-cut-sweep", "snapshot-through-api", "auto-compaction", "stream", "stream-refused", "stream-request-in-replay-window"} {
+		"encoded-entries", "save-inside-task", "install-of-older-record", "send-decision", "received-snapshot-on-B", "overlapping-stream-requests", "power-cut-sweep", "snapshot-through-api", "auto-compaction", "save-racing-update", "stale-recover-task", "stream", "stream-refused", "stream-request-in-replay-window"} {
 		if w.feat[k] {
 			keys = append(keys, k)
 			st.Count("case with " + k)
